@@ -1,7 +1,7 @@
 (* Proofs about the file selection model Cli/FileSel.v: the model computes exactly the
    specified set, each file once, independently of how targets are spelled. *)
 From Coq Require Import NArith List Bool Lia.
-From PV Require Import Gen.FileSelConst Cli.Glob Cli.FileSel Cli.PathProofs.
+From PV Require Import Gen.FileSelConst Cli.Glob Cli.GlobX Cli.FileSel Cli.PathProofs.
 Import ListNotations.
 Open Scope N_scope.
 
@@ -423,7 +423,7 @@ Qed.
 
 (* a pattern without a slash excludes by file name at any depth *)
 Theorem exclude_by_name_any_depth : forall inc exc p d b,
-  In p exc -> has_slash p = false -> glob p [b] = true -> ~ selected inc exc (d ++ [b]).
+  In p exc -> has_slash p = false -> xglob p [b] = true -> ~ selected inc exc (d ++ [b]).
 Proof.
   intros inc exc p d b Hin Hs Hg [_ H]. apply (H p Hin). right. split; [assumption|]. exists d, b. split; [reflexivity|assumption].
 Qed.
